@@ -882,6 +882,7 @@ def check_e2e(chk, build, m, oracle, ncases):
 
 def run(chk):
     chk.trusted_base = common.BASE_TRUST + [
+        "translate/units/_cmp.py + translate/c2gallina.py (clang JSON AST): the comparison part of the C comparators (sort.c cmp_int64) is translated to Gallina on every run, the statements that fetch the compared integers are pinned as normalised source text, not translated",
         "hand model coq/Emu/SortDefs.v of sort_replace, the sort module, and the two-mux breakdown pipeline on the bay's dirty list; "
         "validated each run against the compiled src/emu/sort.c, bay.c, chan.c, mux.c and the static connect_cpu/select_tr/select_idle "
         "of {nosv,nanos6}/breakdown.c (harness/sort_h.c #includes breakdown.c)",
@@ -895,7 +896,7 @@ def run(chk):
     chk.assumptions = ["sort inputs are null (or read as 0) when connected, as breakdown.tri is",
                        "values compared as int64_t; null and double inputs read as 0 (sort_cb_input)",
                        "each CPU channel is written at most once per event"]
-    proved = chk.prove()
+    proved = chk.translate_and_prove(["cmp_sortmod"])
 
     build = common.repo_build("hook")
     hdir = os.path.join(common.BUILD, "harness")
